@@ -355,6 +355,50 @@ Step ==
                                      !.reg = IF r # 0 THEN [@ EXCEPT ![r].long = NoLong, ![r].types = IF q.exp.ok THEN q.exp.types ELSE @] ELSE @]
                  IN /\ m' = mm
                     /\ viol' = viol \cup pvv
+       [] e.e = "end" /\ m.kind # "conn" ->
+            /\ m' = [m EXCEPT !.done = TRUE]
+            /\ UNCHANGED viol
+       [] e.e = "ek" ->
+            \* error-kind table as the running code has it (C13): code, SQLSTATE, and u16 -> kind round trip
+            /\ m' = [m EXCEPT !.n.units = @ + 1]
+            /\ viol' = viol \cup
+                 (IF e.name \notin DOMAIN ErrRef THEN {V("C13", l, "error kind unknown to the reference table: " \o e.name)}
+                  ELSE (IF e.code # ErrRef[e.name].code THEN {V("C13", l, "numeric code of " \o e.name \o " differs from the reference")} ELSE {})
+                       \cup (IF e.state # ErrRef[e.name].state THEN {V("C13", l, "SQLSTATE of " \o e.name \o " differs from the reference")} ELSE {})
+                       \cup (IF e.back # e.name THEN {V("C13", l, "numeric code of " \o e.name \o " converts back to " \o e.back)} ELSE {}))
+       [] e.e = "enc" ->
+            \* one direct call of the value encoder (C06 text / C07, C15 binary)
+            LET c == e.v.c
+                ty == e.col.ty
+                fl == e.col.fl
+                isint == c.t = "int" /\ ty \in IntCols
+                rk == e.v.k
+                vs ==
+                  IF e.mode = "text" THEN
+                    (IF e.res # "ok" THEN {V("C06", l, "text encoding of a value failed")}
+                     ELSE LET tc == TextCells(e.out, 1, << >>) IN
+                          IF ~tc.ok \/ Len(tc.cells) # 1 THEN {V("C06", l, "text encoding is not exactly one length-encoded cell")}
+                          ELSE LET r == TextCellCheck(tc.cells[1], c) IN IF r \in {"", "float"} THEN {} ELSE {V("C06", l, r)})
+                  ELSE IF c.t = "null" THEN {}
+                  ELSE IF e.res = "ok" THEN
+                    (IF Compat(c, ty) = "refuse" THEN {V("C07", l, "value accepted by a column type that cannot carry it")}
+                     ELSE IF Compat(c, ty) = "carries" THEN
+                       LET d == BinCellAt(e.out, 1, ty, fl) IN
+                       IF ~d.ok \/ d.next # Len(e.out) + 1 THEN {V(IF isint THEN "C15" ELSE "C07", l, "encoded bytes do not decode at the column's type")}
+                       ELSE IF ~BinMatch(d.d, c) THEN {V(IF isint THEN "C15" ELSE "C07", l, "accepted value is sent as a different value")}
+                       ELSE {}
+                     ELSE {})
+                  ELSE
+                    (IF e.res = "panic" THEN {V("C07", l, "writing a value panicked instead of returning an error: " \o e.site)} ELSE {})
+                    \cup (IF isint /\ rk \in {"i8", "u8", "i16", "u16", "i32", "u32", "i64", "u64", "isize", "usize"}
+                              /\ MustAccept(rk, MathOf(c.le, c.s), ty, fl)
+                          THEN {V("C15", l, "integer refused although the column's range contains it")} ELSE {})
+            IN /\ m' = [m EXCEPT !.n.units = @ + 1,
+                                  !.floats = IF e.mode = "text" /\ e.res = "ok" /\ c.t \in {"f32", "f64"}
+                                             THEN LET tc == TextCells(e.out, 1, << >>) IN
+                                                  IF tc.ok /\ Len(tc.cells) = 1 /\ ~tc.cells[1].null THEN Append(@, <<c.t, c.le, tc.cells[1].b>>) ELSE @
+                                             ELSE @]
+               /\ viol' = viol \cup vs
        [] e.e = "end" ->
             LET r0 == Consume(Advance(m), viol, l, TRUE)
                 mm == r0.m
@@ -383,9 +427,17 @@ Step ==
                               \cup (IF mm.ob # << >> THEN {V("C04", l, "output ends with bytes that do not form a complete packet exchange")} ELSE {})
                               \cup (IF e.unflushed # 0 THEN {V("C12", l, "run_on returned with unflushed output")} ELSE {})
                          ELSE {}
+                \* a panic leaves commands unanswered
+                vpanic == IF res = "panic" /\ ~mm.fault /\ mm.dead = "" /\ ~mm.lost /\ ~mm.free
+                          THEN LET S == {i \in 1..Len(mm.q) : mm.q[i].cls.reply} IN
+                               IF S = {} THEN {}
+                               ELSE LET i == CHOOSE i \in S : \A j \in S : i <= j IN
+                                    {V("C03", l, "command never answered: run_on panicked")}
+                                    \cup (IF mm.q[i].seq = 255 THEN {V("C05", l, "request with sequence id 255 is not answered with sequence id 0 (panic)")} ELSE {})
+                          ELSE {}
                 vblock == IF mm.blocked /\ ~mm.lost THEN {V("C12", l, "lock-step client blocked: the server waited for input while the client was waiting for a reply")} ELSE {}
             IN /\ m' = [mm EXCEPT !.done = TRUE]
-               /\ viol' = r0.v \cup vres \cup vsync \cup vblock
+               /\ viol' = r0.v \cup vres \cup vsync \cup vblock \cup vpanic
        [] OTHER -> UNCHANGED <<m, viol>>
 
 Spec == Init /\ [][Step]_vars
